@@ -21,7 +21,7 @@ use serde_json::{json, Value};
 pub struct Seed { pub id: String, pub target: &'static str, pub bytes: Vec<u8>, pub spans: Vec<cfkit::parse::Span>, pub grow: &'static str }
 
 /// Grown structures (fault model: GrowSizes): kind -> target parser.
-const GROW: &[(&str, &str)] = &[("condy_fanout", "class"), ("anno_array", "class"), ("anno_anno", "class"), ("ifc_args", "class"), ("method_args", "class"), ("labels", "class"),
+const GROW: &[(&str, &str)] = &[("condy_fanout", "class"), ("condy_uses", "class"), ("anno_array", "class"), ("anno_anno", "class"), ("ifc_args", "class"), ("method_args", "class"), ("labels", "class"),
 	("enigma_nest", "enigma"), ("tiny_nest", "tiny"), ("fdesc_dims", "fdesc"), ("mdesc_dims", "mdesc"), ("desc_args", "mdesc")];
 
 const QUICK_SAMPLES: &[&str] = &["minimal_object", "exception_table", "switches", "frames_each_kind", "annotations_all_element_kinds", "type_annotations_code",
@@ -214,7 +214,10 @@ pub fn grow(kind: &str, k: usize) -> Result<Vec<u8>> {
 		},
 		// k dynamic constants, each naming the one before twice as bootstrap arguments: a file of 13 k + 300 bytes that
 		// denotes a tree of 2^k constants
-		"condy_fanout" => {
+		"condy_fanout" | "condy_uses" => {
+			// condy_uses: a chain of 12 (a tree of 4095 constants, just within what one constant may have) loaded k times
+			let (fan, uses) = if kind == "condy_uses" { (12, k.max(1)) } else { (k, 1) };
+			let k = fan;
 			let mut pool = GPool::new();
 			let bsm_name = pool.utf8("BootstrapMethods");
 			let (c, nt) = (pool.class("B"), pool.nat("b", "()I"));
@@ -237,7 +240,10 @@ pub fn grow(kind: &str, k: usize) -> Result<Vec<u8>> {
 			let mut attr = vec![];
 			u2(&mut attr, bsm_name); u4(&mut attr, a.len() as u32); attr.extend_from_slice(&a);
 			let [x, y] = dynamics[dynamics.len() - 1].to_be_bytes();
-			let mut bytes = gclass(pool, "()V", &[0x13, x, y, 0x57, 0xb1], &[], (0, vec![]), (1, attr));
+			let mut code = vec![];
+			for _ in 0..uses { code.extend_from_slice(&[0x13, x, y, 0x57]); }        // ldc_w, pop
+			code.push(0xb1);
+			let mut bytes = gclass(pool, "()V", &code, &[], (0, vec![]), (1, attr));
 			bytes[7] = 55;      // dynamic constants need class file version 55
 			bytes
 		},
